@@ -216,6 +216,9 @@ func vVerifyWire(alg, hashID uint8, pub, digest, sig []byte) bool {
 
 // refUnbase64: RFC 4648 section 4 decoder (padding required, no white space).
 func refUnbase64(s string) ([]byte, bool) {
+	if b, ok := vBase64Source(s); ok {
+		return b, true
+	}
 	if len(s)%4 != 0 {
 		return nil, false
 	}
